@@ -232,10 +232,10 @@ func c12Counters(c *eng.Ctx, dir, file *ssa.Function, kinds map[string]int64) {
 		return -1
 	}
 	for _, spec := range []struct {
-		fn      *ssa.Function
-		kind    int64
-		fields  map[string]string // field -> expected increment rendering suffix
-		name    string
+		fn     *ssa.Function
+		kind   int64
+		fields map[string]string // field -> expected increment rendering suffix
+		name   string
 	}{
 		{file, kinds["EntryKind_File"], map[string]string{"files": "(p0.files + 1)", "totalFileSize": "(p0.totalFileSize + "}, "file"},
 		{c.MustFunc("R3", corePkg, "scanner.symbolicLink"), kinds["EntryKind_SymbolicLink"], map[string]string{"symbolicLinks": "(p0.symbolicLinks + 1)"}, "symbolicLink"},
